@@ -245,3 +245,16 @@ OBLIGATIONS.append(Ob("cli_wiring", cli, [("mode", "int:0:2"), ("use_stdin", "in
                       timeout=600, layer="B", functions=["multidecoder.__main__.main"],
                       stubs=["sys.argv, sys.stdin, sys.stdout, open, Multidecoder (returns a fixed template tree over the input)"],
                       bound="3 input bytes, the middle one free; modes default/--json/--replace; file argument or stdin"))
+
+
+def dict_round_trip2(v0, v1, v2, v3, v4, v5, v6, v7, i0, i1, i2, i3, i4, i5, i6, i7):
+    t = template([v0, v1, v2, v3, v4, v5, v6, v7], [i0, i1, i2, i3, i4, i5, i6, i7], [0, 1, 2, 3, 4, 5, 6, 0], nv=2)
+    r = as_node(node_to_dict(t))
+    if not fields_equal(t, r) or not parents_ok(r) or r.parent is not None or not (r == t):
+        return hx.fail("as_node(node_to_dict(t)) differs from t", t=t, r=r), True
+    return True, True
+
+
+OBLIGATIONS.append(Ob("dict_round_trip_2byte_values", dict_round_trip2, bytes_params("v", 8) + _INTS, tier="thorough", timeout=1500, layer="B",
+                      functions=["multidecoder.json_conversion.node_to_dict", "multidecoder.json_conversion.as_node"],
+                      bound="template tree, every value 2 free bytes, every start/end a free int"))
